@@ -3,6 +3,8 @@
      run <id> <fips 0|1> <entry> key=hex ...      -> <id> ret=<sval> trace=<ev>;<ev>;... spec=<bits>
      verdict <id> <16|13|legacy> <entry>          -> <id> ok | <id> fail cex key=hex ... unsupported=<n>
      cands <id> <16|13> <entry>                   -> <id> key=hex,hex,... ...
+     spec <id> <entry>                            -> <id> callee=.. args=.. store=.. inline=.. ret=.. class=.. nparams=..
+     view <id> <entry> key=hex ...                -> <id> spec=<bits>   ([pre] ++ must ++ may ++ [same key], from the table only)
      info <id>                                    -> <id> covers=<0|1> entries=<n>,... classes=<entry>:<class>,...
      judge <id> <16|13> <entry> <ret> <fault> <stubret> <chg: i,i|-> <calls: f:a,a;f:a|-> key=hex ...
                                                   -> <id> accept | <id> reject   (L0 acceptor on a native observation)
@@ -130,6 +132,35 @@ let () = iter_lines (fun line ->
     let o = { o_ret = n_of_hex ret; o_calls = calls; o_chg = chg; o_fault = (fault = "1"); o_stubret = n_of_hex stubret } in
     let ok = if which = "13" then judge_13 e l o else judge_16 e l o in
     Printf.printf "%s %s\n" id (if ok then "accept" else "reject")
+  | "samekeys" :: id :: entry :: _ ->
+    (* the memcmp observations the specification's same-key formula is written in *)
+    let e = n_of_int (int_of_string entry) in
+    let rec skeys v acc = match v with
+      | SKey k -> k :: acc | SConst _ -> acc
+      | SUn (_, _, a) | SCast (_, _, a) -> skeys a acc
+      | SBin (_, _, a, b) | SCmp (_, _, a, b) -> skeys a (skeys b acc) in
+    let rec fkeys f acc = match f with
+      | FAtom a -> skeys a acc | FNot g -> fkeys g acc
+      | FAnd (g, h) | FOr (g, h) -> fkeys g (fkeys h acc) | _ -> acc in
+    (match spec_of e with
+     | None -> Printf.printf "%s nospec\n" id
+     | Some sp -> Printf.printf "%s %s\n" id (String.concat " " (List.map key_str (fkeys sp.e_samekey []))))
+  | "spec" :: id :: entry :: _ ->
+    (* the hand-written specification row, printed: nothing derived from the translated bodies *)
+    let e = n_of_int (int_of_string entry) in
+    (match spec_of e with
+     | None -> Printf.printf "%s nospec\n" id
+     | Some sp ->
+       let sh = sp.e_shape in
+       Printf.printf "%s callee=%d args=%s store=%s inline=%d ret=%s class=%d nparams=%d\n" id (int_of_n sh.sh_callee)
+         (if sh.sh_args = [] then "-" else args_str sh.sh_args)
+         (match sh.sh_store with Some j -> string_of_int (int_of_n j) | None -> "-")
+         (if sh.sh_inline then 1 else 0)
+         (match sh.sh_ret with RZero -> "zero" | RCallee -> "callee" | RMapped _ -> "mapped")
+         (int_of_n (class_n sp)) (List.length sp.e_params))
+  | "view" :: id :: entry :: rest ->
+    let e = n_of_int (int_of_string entry) in
+    Printf.printf "%s spec=%s\n" id (bits (spec_view e (parse_assign rest)))
   | "info" :: id :: _ ->
     Printf.printf "%s covers=%d entries=%s classes=%s\n" id (if spec_covers then 1 else 0)
       (String.concat "," (List.map (fun e -> string_of_int (int_of_n e)) entries))
